@@ -24,7 +24,8 @@ TIE_THEOREMS = ["Tie.Command.%s" % n for n in
                ["Tie.Special.%s" % n for n in
                 ("specialParam_tie", "specialNoParam_tie", "shortSpecial_tie", "shortSpecialMask_tie",
                  "initialiseAddr_tie", "initialiseBroadcastAddr_tie", "initialiseBroadcast_tie",
-                 "initialiseUnaddressed_tie", "special_rows_traced")]
+                 "initialiseUnaddressed_tie", "special_rows_traced", "devSpecial0_tie", "devSpecial1_tie",
+                 "devSpecial2_tie", "devSpecial_rows_traced")]
 THEOREMS = ["tables_ok2", "decode_construct", "decode_construct_gen", "render_preserved", "no_shared_frame",
             "std_param_rejected", "std_arity_rejected", "destination_rejected", "wrong_kind_rejected",
             "byte_param_rejected", "slice_write_rejects", "std_accepted_is_legal", "dapc_accepted_is_legal",
